@@ -92,6 +92,11 @@ class PageDatabase:
             self._parsed[key] = value
             self.__generation += 1
 
+    def keys_from_source(self, source: FileId) -> List[FileId]:
+        """Return the keys of the raw parsed pages which were generated from the given source file."""
+        with self._lock:
+            return [key for key, value in self._parsed.items() if value[1] == source]
+
     def get(self, key: FileId) -> Optional[Page]:
         try:
             return self[key]
